@@ -79,18 +79,22 @@ class HostPool(object):
 
         yield from self._condition.acquire()
 
-        while True:
-            if self.ready:
-                connection = self.ready.pop()
-                break
-            elif len(self.busy) < self.max_connections:
-                connection = self._connection_factory()
-                break
-            else:
-                yield from self._condition.wait()
+        try:
+            while True:
+                if self.ready:
+                    connection = self.ready.pop()
+                    break
+                elif len(self.busy) < self.max_connections:
+                    connection = self._connection_factory()
+                    break
+                else:
+                    yield from self._condition.wait()
 
-        self.busy.add(connection)
-        self._condition.release()
+            self.busy.add(connection)
+        finally:
+            # Also reached when the waiter is cancelled: wait() re-acquires
+            # the lock before raising.
+            self._condition.release()
 
         return connection
 
@@ -105,13 +109,16 @@ class HostPool(object):
         Coroutine.
         '''
         yield from self._condition.acquire()
-        self.busy.remove(connection)
 
-        if reuse:
-            self.ready.add(connection)
+        try:
+            self.busy.remove(connection)
 
-        self._condition.notify()
-        self._condition.release()
+            if reuse:
+                self.ready.add(connection)
+
+            self._condition.notify()
+        finally:
+            self._condition.release()
 
 
 class ConnectionPool(object):
